@@ -60,6 +60,7 @@ func runC06(c *core.Ctx) {
 	c.Clause("C06.4 matchIndex raised only by a success reply for the acknowledged request")
 	h.matchIndexOnlyOnSuccess("C06.4 matchIndex")
 	h.storageErrorsSurface("C06.5 storage-errors-surface", storageErrExempt)
+	h.leaderInitEstablishes("C06.3c voter-cache", "leader.numVoters")
 }
 
 // storageErrExempt: storage-layer errors that are deliberately not handed on,
